@@ -1,42 +1,759 @@
+// vcheck: bounded symbolic checking of skx/evalfilter's real code.
+//
+//	vcheck check -prop C16 -tier quick     explore, replay, write evidence
+//	vcheck replay -prop C16 -file f.json   re-run a recorded counterexample natively
+//	vcheck run -h ZZ_Smoke                 explore one harness and dump paths (debugging)
 package main
 
 import (
+	"bufio"
+	"encoding/json"
 	"flag"
 	"fmt"
 	"os"
+	"os/exec"
+	"path/filepath"
+	"regexp"
+	"runtime"
+	"sort"
+	"strconv"
+	"strings"
 	"time"
 
 	"verif/engine/symex"
 )
 
-func main() {
-	repo := flag.String("repo", "/repo", "repository")
-	hdir := flag.String("harness-dir", "/verif/harness", "harness overlay")
-	h := flag.String("h", "ZZ_Smoke", "harness function")
-	workers := flag.Int("j", 4, "workers")
-	flag.Parse()
-	t0 := time.Now()
-	ld, err := symex.Load(symex.LoadConfig{RepoDir: *repo, HarnessDir: *hdir, Module: "github.com/skx/evalfilter/v2", Tags: "verif"})
+const module = "github.com/skx/evalfilter/v2"
+
+var (
+	repoDir    = "/repo"
+	verifDir   = "/verif"
+	harnessDir = "/verif/harness"
+)
+
+type knownFinding struct {
+	Property string `json:"property"`
+	Harness  string `json:"harness"`
+	Site     string `json:"site"`
+	Region   string `json:"region"`
+	What     string `json:"what"`
+}
+
+type knownFile struct {
+	Findings []knownFinding `json:"findings"`
+	Fixed    []string       `json:"fixed"`
+}
+
+func loadKnown() knownFile {
+	var kf knownFile
+	b, err := os.ReadFile(filepath.Join(verifDir, "known_findings.json"))
+	if err == nil {
+		if err := json.Unmarshal(b, &kf); err != nil {
+			fatal(3, "known_findings.json: %v", err)
+		}
+	}
+	return kf
+}
+
+func fatal(code int, format string, a ...interface{}) {
+	fmt.Fprintf(os.Stderr, "vcheck: "+format+"\n", a...)
+	os.Exit(code)
+}
+
+type harnessRef struct {
+	Pkg  string // relative package dir ("" = root)
+	Name string
+}
+
+// findHarnesses scans the overlay sources for ZZ_<prop>_* functions.
+func findHarnesses(prop string) []harnessRef {
+	re := regexp.MustCompile(`(?m)^func (ZZ_` + regexp.QuoteMeta(prop) + `_\w+)\(sv \*zzsv\.T\)`)
+	var out []harnessRef
+	filepath.Walk(harnessDir, func(path string, info os.FileInfo, err error) error {
+		if err != nil || info.IsDir() || !strings.HasSuffix(path, ".go") || strings.HasSuffix(path, "_test.go") {
+			return nil
+		}
+		b, _ := os.ReadFile(path)
+		rel, _ := filepath.Rel(harnessDir, filepath.Dir(path))
+		if rel == "." {
+			rel = ""
+		}
+		for _, m := range re.FindAllStringSubmatch(string(b), -1) {
+			out = append(out, harnessRef{Pkg: rel, Name: m[1]})
+		}
+		return nil
+	})
+	sort.Slice(out, func(i, j int) bool {
+		if out[i].Pkg != out[j].Pkg {
+			return out[i].Pkg < out[j].Pkg
+		}
+		return out[i].Name < out[j].Name
+	})
+	return out
+}
+
+// ---- native twin
+
+type nativeCase struct {
+	Harness string            `json:"harness"`
+	Model   map[string]string `json:"model"`
+}
+
+type nativeOutcome struct {
+	Harness string   `json:"harness"`
+	Obs     []string `json:"obs"`
+	Fails   []string `json:"fails"`
+	Panic   string   `json:"panic"`
+	Assume  bool     `json:"assume_failed"`
+}
+
+type nativeRunner struct {
+	scratch string
+	bins    map[string]string
+	race    bool
+}
+
+func goEnv() []string {
+	return append(os.Environ(), "GOFLAGS=-mod=mod", "GOPROXY=off", "GOSUMDB=off", "GOTOOLCHAIN=local")
+}
+
+func newNativeRunner() *nativeRunner {
+	d, err := os.MkdirTemp("/var/tmp", "verif.")
 	if err != nil {
-		fmt.Fprintln(os.Stderr, err)
+		fatal(3, "scratch: %v", err)
+	}
+	return &nativeRunner{scratch: d, bins: map[string]string{}}
+}
+
+func (n *nativeRunner) cleanup() { os.RemoveAll(n.scratch) }
+
+func (n *nativeRunner) overlayFile() string {
+	rep := map[string]string{}
+	filepath.Walk(harnessDir, func(path string, info os.FileInfo, err error) error {
+		if err != nil || info.IsDir() || !strings.HasSuffix(path, ".go") {
+			return nil
+		}
+		rel, _ := filepath.Rel(harnessDir, path)
+		rep[filepath.Join(repoDir, rel)] = path
+		return nil
+	})
+	b, _ := json.Marshal(map[string]interface{}{"Replace": rep})
+	f := filepath.Join(n.scratch, "overlay.json")
+	os.WriteFile(f, b, 0644)
+	return f
+}
+
+func (n *nativeRunner) bin(pkg string) (string, error) {
+	if b, ok := n.bins[pkg]; ok {
+		return b, nil
+	}
+	out := filepath.Join(n.scratch, "t_"+strings.ReplaceAll(pkg, "/", "_")+".test")
+	args := []string{"test", "-c", "-vet=off", "-tags", "verif", "-overlay", n.overlayFile(), "-o", out}
+	if n.race {
+		args = append(args, "-race")
+	}
+	args = append(args, "./"+pkg)
+	cmd := exec.Command("go", args...)
+	cmd.Dir = repoDir
+	cmd.Env = append(goEnv(), "GOCACHE="+goCache())
+	if b, err := cmd.CombinedOutput(); err != nil {
+		return "", fmt.Errorf("building native twin for %q: %v\n%s", pkg, err, b)
+	}
+	n.bins[pkg] = out
+	return out, nil
+}
+
+func goCache() string {
+	if c := os.Getenv("GOCACHE"); c != "" {
+		return c
+	}
+	h, _ := os.UserHomeDir()
+	return filepath.Join(h, ".cache", "go-build")
+}
+
+func (n *nativeRunner) run(pkg string, cases []nativeCase, extraEnv ...string) ([]nativeOutcome, error) {
+	if len(cases) == 0 {
+		return nil, nil
+	}
+	bin, err := n.bin(pkg)
+	if err != nil {
+		return nil, err
+	}
+	cf := filepath.Join(n.scratch, "cases.jsonl")
+	of := filepath.Join(n.scratch, "out.jsonl")
+	f, _ := os.Create(cf)
+	w := bufio.NewWriter(f)
+	for _, c := range cases {
+		b, _ := json.Marshal(c)
+		w.Write(b)
+		w.WriteByte('\n')
+	}
+	w.Flush()
+	f.Close()
+	os.Remove(of)
+	cmd := exec.Command(bin, "-test.run", "^TestZZReplay$", "-test.timeout", "20m")
+	cmd.Dir = filepath.Join(repoDir, pkg)
+	cmd.Env = append(append(goEnv(), "VERIF_CASES="+cf, "VERIF_OUT="+of), extraEnv...)
+	outb, rerr := cmd.CombinedOutput()
+	var outs []nativeOutcome
+	if fo, err := os.Open(of); err == nil {
+		sc := bufio.NewScanner(fo)
+		sc.Buffer(make([]byte, 1<<20), 1<<26)
+		for sc.Scan() {
+			var o nativeOutcome
+			if json.Unmarshal(sc.Bytes(), &o) == nil {
+				outs = append(outs, o)
+			}
+		}
+		fo.Close()
+	}
+	if len(outs) < len(cases) {
+		// the native process died (fatal error, os.Exit, deadlock ...): the
+		// case after the last reported one is the culprit.
+		return outs, fmt.Errorf("native twin stopped after %d of %d cases: %v\n%s", len(outs), len(cases), rerr, tail(string(outb), 2000))
+	}
+	return outs, nil
+}
+
+func tail(s string, n int) string {
+	if len(s) > n {
+		return s[len(s)-n:]
+	}
+	return s
+}
+
+// ---- evidence
+
+type sample struct {
+	Harness string            `json:"harness"`
+	Notes   map[string]string `json:"notes,omitempty"`
+	Inputs  map[string]string `json:"inputs"`
+	Obs     []string          `json:"observed"`
+	End     string            `json:"path_end"`
+}
+
+type harnessStats struct {
+	Name         string         `json:"harness"`
+	Paths        int            `json:"paths"`
+	Feasible     int            `json:"feasible_paths"`
+	Unsupported  int            `json:"unsupported_paths"`
+	Truncated    int            `json:"truncated_paths"`
+	Sites        map[string]int `json:"assert_sites_paths"`
+	Steps        int64          `json:"ssa_instructions"`
+	Validated    int            `json:"native_validated"`
+	WallS        float64        `json:"wall_s"`
+	UnsupportedW []string       `json:"unsupported_reasons,omitempty"`
+}
+
+type checkResult struct {
+	violations   []string // VIOLATION lines
+	known        []string
+	inconclusive []string
+	internal     []string
+}
+
+func cmdCheck(args []string) {
+	fs := flag.NewFlagSet("check", flag.ExitOnError)
+	prop := fs.String("prop", "", "property id")
+	tier := fs.String("tier", "quick", "quick|thorough")
+	workers := fs.Int("j", 0, "workers (default: all cores)")
+	only := fs.String("only", "", "restrict to harnesses matching this regexp")
+	canary := fs.Bool("canary", false, "vacuity twin: every assertion is replaced by false")
+	fs.Parse(args)
+	if *prop == "" {
+		fatal(3, "-prop required")
+	}
+	if t := os.Getenv("VERIF_TIER"); t != "" && (t == "quick" || t == "thorough") && !flagSet(fs, "tier") {
+		*tier = t
+	}
+	seed, _ := strconv.ParseInt(os.Getenv("VERIF_SEED"), 10, 64)
+	if *workers <= 0 {
+		*workers = runtime.NumCPU()
+	}
+	t0 := time.Now()
+	hs := findHarnesses(*prop)
+	if *only != "" {
+		re := regexp.MustCompile(*only)
+		var f []harnessRef
+		for _, h := range hs {
+			if re.MatchString(h.Name) {
+				f = append(f, h)
+			}
+		}
+		hs = f
+	}
+	if len(hs) == 0 {
+		fatal(3, "no harness for %s", *prop)
+	}
+	kf := loadKnown()
+	knownRegions := map[string][]string{}
+	knownWhat := map[string]string{}
+	for _, k := range kf.Findings {
+		if k.Property == *prop {
+			knownRegions[k.Site] = append(knownRegions[k.Site], k.Region)
+			knownWhat[k.Site+"|"+k.Region] = k.What
+		}
+	}
+
+	nat := newNativeRunner()
+	defer nat.cleanup()
+	var cr checkResult
+	var hstats []harnessStats
+	var samples []sample
+	funcsRepo := map[string]bool{}
+	funcsStd := map[string]bool{}
+	totalPaths, totalFeasible, totalValidated, nontrivial := 0, 0, 0, 0
+	params := map[string]int{}
+	byPkg := map[string][]harnessRef{}
+	var pkgs []string
+	for _, h := range hs {
+		if _, ok := byPkg[h.Pkg]; !ok {
+			pkgs = append(pkgs, h.Pkg)
+		}
+		byPkg[h.Pkg] = append(byPkg[h.Pkg], h)
+	}
+	replayN := 0
+	os.MkdirAll(filepath.Join(verifDir, "replay"), 0755)
+	for _, pkg := range pkgs {
+		ld, err := symex.Load(symex.LoadConfig{RepoDir: repoDir, HarnessDir: harnessDir, Module: module, Pkg: pkg, Tags: "verif"})
+		if err != nil {
+			fatal(3, "loading %s/%s: %v", repoDir, pkg, err)
+		}
+		for _, h := range byPkg[pkg] {
+			th := time.Now()
+			opt := symex.Options{Workers: *workers, KnownRegions: knownRegions, Seed: seed, Tier: *tier, Canary: *canary}
+			ex := symex.NewExplorer(opt)
+			res, bugs := ex.Run(ld, h.Name)
+			for _, b := range bugs {
+				cr.internal = append(cr.internal, h.Name+": "+b)
+			}
+			st := harnessStats{Name: h.Name, Sites: map[string]int{}}
+			var okPaths []*symex.PathResult
+			var cands []symex.Candidate
+			unsW := map[string]int{}
+			for _, r := range res {
+				st.Paths++
+				st.Steps += r.Steps
+				switch r.End {
+				case "ok", "panic":
+					st.Feasible++
+					okPaths = append(okPaths, r)
+					if len(r.Sites) > 0 {
+						nontrivial++
+					}
+				case "unsupported":
+					st.Unsupported++
+					unsW[r.Why]++
+				case "budget":
+					st.Truncated++
+				}
+				for s := range r.Sites {
+					st.Sites[s]++
+				}
+				for k, v := range r.Params {
+					params[h.Name+"."+k] = v
+				}
+				cands = append(cands, r.Cands...)
+				for _, s := range r.Incon {
+					cr.inconclusive = append(cr.inconclusive, h.Name+": "+s)
+				}
+				for f := range r.Funcs {
+					if strings.Contains(f, module) {
+						funcsRepo[f] = true
+					} else {
+						funcsStd[f] = true
+					}
+				}
+				for _, f := range r.Forbidden {
+					cr.inconclusive = append(cr.inconclusive, h.Name+": forbidden primitive reached: "+f)
+				}
+			}
+			for w, n := range unsW {
+				st.UnsupportedW = append(st.UnsupportedW, fmt.Sprintf("%dx %s", n, w))
+				cr.inconclusive = append(cr.inconclusive, fmt.Sprintf("%s: %d path(s) outside the encoding: %s", h.Name, n, w))
+			}
+			sort.Strings(st.UnsupportedW)
+			if st.Truncated > 0 {
+				cr.inconclusive = append(cr.inconclusive, fmt.Sprintf("%s: %d path(s) exhausted the instruction budget (unwinding bound)", h.Name, st.Truncated))
+			}
+			if len(st.Sites) == 0 && len(bugs) == 0 {
+				cr.internal = append(cr.internal, h.Name+": vacuous: no assertion site reached on any feasible path")
+			}
+			// --- native validation of path models (translator validation)
+			maxVal := 48
+			if *tier == "thorough" {
+				maxVal = 1000
+			}
+			var sel []*symex.PathResult
+			for _, r := range okPaths {
+				if r.Model != nil && len(r.Cands) == 0 {
+					sel = append(sel, r)
+				}
+			}
+			if len(sel) > maxVal {
+				step := float64(len(sel)) / float64(maxVal)
+				var s2 []*symex.PathResult
+				for k := 0; k < maxVal; k++ {
+					s2 = append(s2, sel[int(float64(k)*step)])
+				}
+				sel = s2
+			}
+			var cases []nativeCase
+			for _, r := range sel {
+				cases = append(cases, nativeCase{Harness: h.Name, Model: r.Model})
+			}
+			outs, err := nat.run(pkg, cases, canaryEnv(*canary)...)
+			if err != nil {
+				cr.internal = append(cr.internal, h.Name+": native validation: "+err.Error())
+			}
+			for k, o := range outs {
+				r := sel[k]
+				if o.Assume {
+					cr.internal = append(cr.internal, fmt.Sprintf("%s: native twin rejected a path model (assume failed) %v", h.Name, r.Model))
+					continue
+				}
+				if strings.Join(o.Obs, "\n") != strings.Join(r.ObsPred, "\n") || (len(o.Fails) > 0 && !*canary) {
+					cr.internal = append(cr.internal, fmt.Sprintf("%s: engine/native mismatch on path %v\n  inputs   %v\n  predicted %v\n  native    %v fails=%v panic=%q", h.Name, r.Decis, r.Model, r.ObsPred, o.Obs, o.Fails, o.Panic))
+					continue
+				}
+				st.Validated++
+			}
+			// samples
+			for k, r := range sel {
+				if k >= 3 {
+					break
+				}
+				samples = append(samples, sample{Harness: h.Name, Notes: r.Notes, Inputs: r.Model, Obs: r.ObsPred, End: r.End})
+			}
+			// --- candidates: replay natively, classify
+			cands = dedupCands(cands)
+			var ccases []nativeCase
+			for _, c := range cands {
+				ccases = append(ccases, nativeCase{Harness: h.Name, Model: c.Model})
+			}
+			couts, err := nat.run(pkg, ccases, canaryEnv(*canary)...)
+			if err != nil && len(couts) < len(ccases) {
+				// the native process died on case len(couts): that is a crash
+				// of the host, i.e. a confirmed failure of that candidate.
+				dead := cands[len(couts)]
+				couts = append(couts, nativeOutcome{Harness: h.Name, Fails: []string{dead.Site, "harness.panic"}, Panic: "native process died: " + err.Error()})
+				for len(couts) < len(ccases) {
+					one, err2 := nat.run(pkg, ccases[len(couts):len(couts)+1])
+					if err2 != nil || len(one) == 0 {
+						one = []nativeOutcome{{Harness: h.Name, Fails: []string{cands[len(couts)].Site, "harness.panic"}, Panic: "native process died"}}
+					}
+					couts = append(couts, one[0])
+				}
+			}
+			seenKnown := map[string]bool{}
+			for k, c := range cands {
+				if k >= len(couts) {
+					break
+				}
+				o := couts[k]
+				confirmed := false
+				for _, f := range o.Fails {
+					if f == c.Site {
+						confirmed = true
+					}
+				}
+				if !confirmed {
+					cr.internal = append(cr.internal, fmt.Sprintf("%s: counterexample for %s does not reproduce natively (engine or stub error): inputs %v notes %v native obs=%v fails=%v", h.Name, c.Site, c.Model, c.Note, o.Obs, o.Fails))
+					continue
+				}
+				if c.Known != "" {
+					key := c.Site + "|" + c.Known
+					if !seenKnown[key] {
+						seenKnown[key] = true
+						cr.known = append(cr.known, fmt.Sprintf("KNOWN-FINDING: property=%s %s [harness %s, site %s, region %s; e.g. inputs %v]", *prop, knownWhat[key], h.Name, c.Site, c.Known, c.Model))
+					}
+					continue
+				}
+				replayN++
+				rf := filepath.Join(verifDir, "replay", fmt.Sprintf("%s-%s-%d.json", *prop, h.Name, replayN))
+				b, _ := json.MarshalIndent(map[string]interface{}{
+					"property": *prop, "harness": h.Name, "package": pkg, "site": c.Site, "inputs": c.Model,
+					"notes": c.Note, "native_observations": o.Obs, "native_failed_assertions": o.Fails, "native_panic": o.Panic,
+					"engine_panic": c.PanicMsg,
+				}, "", " ")
+				os.WriteFile(rf, b, 0644)
+				if replayN <= 20 {
+					cr.violations = append(cr.violations, fmt.Sprintf("VIOLATION property=%s replay=%s", *prop, rf))
+					fmt.Printf("  counterexample: harness=%s site=%s inputs=%v notes=%v\n", h.Name, c.Site, c.Model, c.Note)
+				}
+			}
+			st.WallS = time.Since(th).Seconds()
+			hstats = append(hstats, st)
+			totalPaths += st.Paths
+			totalFeasible += st.Feasible
+			totalValidated += st.Validated
+			fmt.Printf("harness %-28s paths=%d feasible=%d unsupported=%d truncated=%d sites=%d validated=%d cands=%d %.1fs\n",
+				h.Name, st.Paths, st.Feasible, st.Unsupported, st.Truncated, len(st.Sites), st.Validated, len(cands), st.WallS)
+		}
+	}
+
+	// ---- verdict
+	for _, l := range cr.known {
+		fmt.Println(l)
+	}
+	incon := uniq(cr.inconclusive)
+	for _, l := range incon {
+		fmt.Println("INCONCLUSIVE", l)
+	}
+	for _, l := range cr.internal {
+		fmt.Println("INTERNAL", l)
+	}
+	for _, l := range cr.violations {
+		fmt.Println(l)
+	}
+	wall := time.Since(t0).Seconds()
+	if *canary {
+		// canary mode: success means every harness produced a reproducing violation
+		if len(cr.violations) == 0 || len(cr.internal) > 0 {
+			fmt.Println("CANARY FAILED: no reproducing violation")
+			os.Exit(3)
+		}
+		fmt.Printf("canary ok: %d reproducing violations\n", len(cr.violations))
+		os.Exit(0)
+	}
+	// evidence
+	var repoFns []string
+	for f := range funcsRepo {
+		repoFns = append(repoFns, f)
+	}
+	sort.Strings(repoFns)
+	if len(samples) == 0 {
+		samples = append(samples, sample{Harness: hs[0].Name, End: "none"})
+	}
+	ev := map[string]interface{}{
+		"property_id": *prop,
+		"tier":        *tier,
+		"seed":        seed,
+		"level":       "model_checking",
+		"wall_s":      wall,
+		"violations":  len(cr.violations),
+		"coverage": map[string]interface{}{
+			"states":                        max1(totalFeasible),
+			"transitions":                   max1(int(symex.Stats.Queries)),
+			"traces_validated_against_impl": totalValidated,
+			"samples":                       samples,
+			"evaluations":                   max1(totalPaths),
+			"distinct_nontrivial":           nontrivial,
+			"rule":                          "one evaluation = one symbolic path (decision vector) of a harness through the real code; distinct = distinct decision vectors; non-trivial = the path reached at least one assertion site. states = feasible paths, transitions = solver queries.",
+			"exhaustive":                    len(incon) == 0 && len(cr.internal) == 0,
+			"explanation":                   "bounded symbolic execution of the repository's go/ssa with SMT: every listed path stands for all inputs satisfying its path condition; assertions are decided by the solver (unsat = holds for all those inputs).",
+			"harnesses":                     hstats,
+			"bounds":                        params,
+			"solver": map[string]interface{}{
+				"queries": symex.Stats.Queries, "sat": symex.Stats.Sat, "unsat": symex.Stats.Unsat, "unknown": symex.Stats.Unknown,
+				"errors": symex.Stats.Errors, "z3_seconds": float64(symex.Stats.NanosZ3) / 1e9, "cvc5_seconds": float64(symex.Stats.NanosCVC) / 1e9,
+				"backends": "z3 4.8.12 (bit-vectors), cvc5 1.0 (paths with floating point)",
+			},
+			"functions_encoded_repo":   repoFns,
+			"functions_encoded_stdlib": len(funcsStd),
+			"inconclusive":             incon,
+			"known_findings_printed":   cr.known,
+			"internal_errors":          cr.internal,
+		},
+		"assumptions": []string{
+			"x/tools v0.29.0 go/ssa builder and the interpreter fork are faithful to Go semantics (validated per run by native replay of path models)",
+			"environment stubs of DESIGN.md section 2.5 (fmt, strconv formatting, sync, reflect emulation, time, os.Getenv, math.Pow as uninterpreted function)",
+			"solver answers of z3/cvc5 are correct; unknown answers are reported as inconclusive",
+			"bounds stated under coverage.bounds; inputs outside them are not covered",
+		},
+	}
+	os.MkdirAll(filepath.Join(verifDir, "evidence"), 0755)
+	b, _ := json.MarshalIndent(ev, "", " ")
+	os.WriteFile(filepath.Join(verifDir, "evidence", *prop+".json"), b, 0644)
+	fmt.Printf("%s %s: %d harnesses, %d paths (%d feasible), %d solver queries, %d native validations, %.1fs\n",
+		*prop, *tier, len(hs), totalPaths, totalFeasible, symex.Stats.Queries, totalValidated, wall)
+	nat.cleanup()
+	switch {
+	case len(cr.internal) > 0:
 		os.Exit(3)
+	case len(cr.violations) > 0:
+		os.Exit(1)
+	}
+	os.Exit(0)
+}
+
+func canaryEnv(on bool) []string {
+	if on {
+		return []string{"VERIF_CANARY=1"}
+	}
+	return nil
+}
+
+func flagSet(fs *flag.FlagSet, name string) bool {
+	set := false
+	fs.Visit(func(f *flag.Flag) {
+		if f.Name == name {
+			set = true
+		}
+	})
+	return set
+}
+
+func max1(n int) int {
+	if n < 1 {
+		return 1
+	}
+	return n
+}
+
+func uniq(xs []string) []string {
+	seen := map[string]bool{}
+	var out []string
+	for _, x := range xs {
+		if !seen[x] {
+			seen[x] = true
+			out = append(out, x)
+		}
+	}
+	return out
+}
+
+// dedupCands keeps one candidate per (site, known region, notes) class and at
+// most a handful per site, so that replay stays cheap.
+func dedupCands(cs []symex.Candidate) []symex.Candidate {
+	seen := map[string]int{}
+	var out []symex.Candidate
+	for _, c := range cs {
+		var ks []string
+		for k, v := range c.Note {
+			ks = append(ks, k+"="+v)
+		}
+		sort.Strings(ks)
+		key := c.Site + "|" + c.Known + "|" + strings.Join(ks, ";")
+		if seen[key] >= 1 {
+			continue
+		}
+		persite := c.Site + "|" + c.Known
+		if seen[persite] >= 12 {
+			continue
+		}
+		seen[key]++
+		seen[persite]++
+		out = append(out, c)
+	}
+	return out
+}
+
+func cmdReplay(args []string) {
+	fs := flag.NewFlagSet("replay", flag.ExitOnError)
+	file := fs.String("file", "", "replay file")
+	fs.Parse(args)
+	b, err := os.ReadFile(*file)
+	if err != nil {
+		fatal(3, "%v", err)
+	}
+	var r struct {
+		Property string            `json:"property"`
+		Harness  string            `json:"harness"`
+		Package  string            `json:"package"`
+		Site     string            `json:"site"`
+		Inputs   map[string]string `json:"inputs"`
+	}
+	if err := json.Unmarshal(b, &r); err != nil {
+		fatal(3, "%v", err)
+	}
+	nat := newNativeRunner()
+	defer nat.cleanup()
+	outs, err := nat.run(r.Package, []nativeCase{{Harness: r.Harness, Model: r.Inputs}})
+	if err != nil {
+		fmt.Printf("native run died: %v\n", err)
+		fmt.Printf("VIOLATION property=%s replay=%s\n", r.Property, *file)
+		nat.cleanup()
+		os.Exit(1)
+	}
+	o := outs[0]
+	fmt.Printf("native observations: %v\nfailed assertions: %v\npanic: %q\n", o.Obs, o.Fails, o.Panic)
+	for _, f := range o.Fails {
+		if f == r.Site {
+			fmt.Printf("VIOLATION property=%s replay=%s\n", r.Property, *file)
+			nat.cleanup()
+			os.Exit(1)
+		}
+	}
+	fmt.Println("does not reproduce on the current tree")
+}
+
+func cmdRun(args []string) {
+	fs := flag.NewFlagSet("run", flag.ExitOnError)
+	h := fs.String("h", "ZZ_Smoke", "harness function")
+	pkg := fs.String("pkg", "", "package dir relative to the repository root")
+	workers := fs.Int("j", runtime.NumCPU(), "workers")
+	tier := fs.String("tier", "quick", "tier")
+	verbose := fs.Bool("v", false, "print every path")
+	maxp := fs.Int64("max", 0, "stop after this many paths")
+	fs.Parse(args)
+	t0 := time.Now()
+	ld, err := symex.Load(symex.LoadConfig{RepoDir: repoDir, HarnessDir: harnessDir, Module: module, Pkg: *pkg, Tags: "verif"})
+	if err != nil {
+		fatal(3, "%v", err)
 	}
 	fmt.Println("load+build", time.Since(t0))
 	t1 := time.Now()
-	ex := symex.NewExplorer(symex.Options{Workers: *workers})
+	kf := loadKnown()
+	knownRegions := map[string][]string{}
+	for _, k := range kf.Findings {
+		knownRegions[k.Site] = append(knownRegions[k.Site], k.Region)
+	}
+	ex := symex.NewExplorer(symex.Options{Workers: *workers, Tier: *tier, MaxPaths: *maxp, KnownRegions: knownRegions})
 	res, bugs := ex.Run(ld, *h)
 	fmt.Println("explore", time.Since(t1), "paths", len(res))
-	for _, b := range bugs {
-		fmt.Println("BUG", b)
-	}
+	ends := map[string]int{}
+	why := map[string]int{}
+	ncand := 0
 	for _, r := range res {
-		fmt.Printf("path %v end=%s why=%q steps=%d q=%d sites=%v obs=%v model=%v\n", r.Decis, r.End, r.Why, r.Steps, r.Queries, r.Sites, r.ObsPred, r.Model)
-		for _, c := range r.Cands {
-			fmt.Printf("   CAND site=%s model=%v known=%q %s\n", c.Site, c.Model, c.Known, c.PanicMsg)
+		ends[r.End]++
+		if r.End == "unsupported" || r.End == "budget" {
+			why[r.Why]++
+		}
+		if *verbose || len(r.Cands) > 0 {
+			if *verbose {
+				fmt.Printf("path %v end=%s why=%q steps=%d sites=%v obs=%v model=%v notes=%v\n", r.Decis, r.End, r.Why, r.Steps, r.Sites, r.ObsPred, r.Model, r.Notes)
+			}
+			for _, c := range r.Cands {
+				ncand++
+				if ncand <= 40 {
+					fmt.Printf("   CAND site=%s known=%q inputs=%v notes=%v %s\n", c.Site, c.Known, c.Model, c.Note, c.PanicMsg)
+				}
+			}
 		}
 		for _, s := range r.Incon {
 			fmt.Println("   INCON", s)
 		}
 	}
+	for _, b := range bugs {
+		fmt.Println("BUG", b)
+	}
+	fmt.Println("ends", ends, "candidates", ncand)
+	for w, n := range why {
+		fmt.Printf("  %dx %s\n", n, w)
+	}
 	fmt.Printf("solver: %+v\n", symex.Stats)
+}
+
+func main() {
+	if len(os.Args) < 2 {
+		fatal(3, "usage: vcheck check|replay|run ...")
+	}
+	if d := os.Getenv("VERIF_REPO"); d != "" {
+		repoDir = d
+	}
+	if d := os.Getenv("VERIF_DIR"); d != "" {
+		verifDir = d
+		harnessDir = filepath.Join(d, "harness")
+	}
+	switch os.Args[1] {
+	case "check":
+		cmdCheck(os.Args[2:])
+	case "replay":
+		cmdReplay(os.Args[2:])
+	case "run":
+		cmdRun(os.Args[2:])
+	default:
+		fatal(3, "unknown command %s", os.Args[1])
+	}
 }
